@@ -67,6 +67,25 @@ def gen(rng, tier):
         add(v, "perturbed")
     for t in ["", "0x", "0X" + good[2:], " " + good, good + " ", good + "\n", "0x0x" + good[2:], "1b", "0x1b"]:
         add(t, "malformed", nt=False)
+    # scalars with a zero byte at each position 0..31 (printing assembles r and s from bytes / words)
+    NN0 = 0xFFFFFFFFFFFFFFFFFFFFFFFFFFFFFFFEBAAEDCE6AF48A03BBFD25E8CD0364141
+    for pos in range(32):
+        for which in ("r", "s"):
+            b = bytearray(rng.getrandbits(8) | 1 for _ in range(32))
+            b[0] = b[0] & 0x7f | 1
+            b[pos] = 0
+            if pos == 0:
+                b[1] |= 1
+            v = int.from_bytes(b, "big")
+            o = rng.randrange(1, NN0)
+            r_, s_ = (v, o) if which == "r" else (o, v)
+            cases.append(Case("sig.print %064x %064x %d" % (r_, s_, rng.randrange(2)), tags=("zero-byte-at", which)))
+            cases.append(Case("sig.parse " + hx("0x%064x%064x%02x" % (r_, s_, 27 + rng.randrange(2))), tags=("zero-byte-at", which)))
+    # one digit of a valid text replaced by + - _ . , x X ~ NUL g G or a blank, at every position
+    from vlib.core import substitute
+    goodtxt = "%064x%064x1c" % (rng.randrange(1, NN0), rng.randrange(1, NN0))
+    for v in substitute(goodtxt) + substitute("0x" + goodtxt, 2)[::7]:
+        cases.append(Case("sig.parse " + hx(v), tags=("substituted",)))
     # interoperation: a text of the printed form is accepted by `hash transaction --signature` for every kind of transaction
     # (the pre-EIP-155 legacy form included) and the hash is keccak256 of the signed payload carrying exactly (r, s, parity)
     from vlib import txgen
